@@ -15,6 +15,11 @@ open Mdsort.Proofs.Own
 theorem inFlightH_snoc (tr : Trace) (e : Call × Res) : inFlightH (tr ++ [e]) = inFlightUpd (inFlightH tr) e := by
   simp [inFlightH, List.foldl_append]
 
+theorem inFlightUpd_unlinkat (acc : List (Handle × Bytes)) (d : Handle) (n : Bytes) (r : Res) :
+    inFlightUpd acc (.unlinkat d n, r) =
+      if acc.contains (d, n) then acc.filter (· != (d, n)) else if isOk r then [] else acc := by
+  cases r <;> rfl
+
 /-- Results a mover can see: a `renameat` succeeds or fails, and never with `EXDEV` (one device). -/
 def MoverR (c : Call) (r : Res) : Prop :=
   ∀ d1 n1 d2 n2, c = .renameat d1 n1 d2 n2 → (∃ v, r = .ok v) ∨ (∃ e, r = .err e ∧ e ≠ "EXDEV")
@@ -94,7 +99,7 @@ theorem mover_genname (env : PEnv) (md : Maildir) (flags : Option Bytes) (fuel c
   | succ fuel ih =>
     unfold genname
     simp only [bind_eq, pure_eq, call_bind]
-    generalize (decimalInt env.now ++ [46] ++ decimal env.pid ++ [95] ++ decimal (count + 1) ++ [46] ++ env.host ++
+    generalize (decimalInt env.now ++ [46] ++ decimal env.pid ++ [95] ++ decimal ((count + 1) % gennameWrap) ++ [46] ++ env.host ++
           flags.getD []) = nm
     split
     · exact h0
@@ -153,7 +158,7 @@ theorem mover_maildirMove (env : PEnv) (s dst : Maildir) (ms : MsgSt) (tr : Trac
   split
   · exact h1
   rename_i fl _
-  refine wp_bind_ext (mover_genname env dst (some fl) 4096 _ _ h1) ?_
+  refine wp_bind_ext (mover_genname env dst (some fl) gennameAttempts _ _ h1) ?_
   intro g L1 hg
   cases g with
   | none => exact hg
